@@ -3,6 +3,7 @@ CONSTANTS
   Dims = {1, 2, 4}
   RotIdx = {1}
   StyleIdx = {1}
+  Recount = FALSE
   Deviations = {"DefaultOriginRaises"}
 INVARIANT TilesExactlyOnce
 INVARIANT InsideBase
